@@ -10,7 +10,7 @@ from bip_utils.ecc.secp256k1.secp256k1_point_ecdsa import Secp256k1PointEcdsa
 from bip_utils.ecc.secp256k1.secp256k1_keys_coincurve import Secp256k1PublicKeyCoincurve, Secp256k1PrivateKeyCoincurve
 from bip_utils.ecc.secp256k1.secp256k1_keys_ecdsa import Secp256k1PublicKeyEcdsa, Secp256k1PrivateKeyEcdsa
 
-LEAN_MODULES = ["BipVerif.Props.C12", "BipVerif.Props.C12Group", "BipVerif.Props.C12Ed"]
+LEAN_MODULES = ["BipVerif.Props.C12", "BipVerif.Props.C12Group", "BipVerif.Props.C12Ed", "BipVerif.Props.C12Tables"]
 POINT = {"secp256k1": Secp256k1PointCoincurve, "nist256p1": Nist256p1Point, "ed25519": Ed25519Point, "ed25519blake2b": Ed25519Blake2bPoint,
          "ed25519kholaw": Ed25519KholawPoint, "ed25519monero": Ed25519MoneroPoint}
 GEN = {"secp256k1": Secp256k1, "nist256p1": Nist256p1, "ed25519": Ed25519, "ed25519blake2b": Ed25519Blake2b, "ed25519kholaw": Ed25519Kholaw,
@@ -117,6 +117,44 @@ def gen(rng, tier):
 
 
 # inputs on which the two secp256k1 back-ends are known to differ (F-backend-diff): keyed by class
+def pre_build():
+    from gen import gen_curves
+    gen_curves.main()
+
+
+# the reference rows of Props/C12Tables.lean, as integers (standard curve parameters; only used to LOCALISE a broken table theorem)
+_REF = {
+    "SECP256K1": (0xFFFFFFFFFFFFFFFFFFFFFFFFFFFFFFFEBAAEDCE6AF48A03BBFD25E8CD0364141,
+                  (0x79BE667EF9DCBBAC55A06295CE870B07029BFCDB2DCE28D959F2815B16F81798, 0x483ADA7726A3C4655DA4FBFC0E1108A8FD17B448A68554199C47D08FFB10D4B8)),
+    "NIST256P1": (0xFFFFFFFF00000000FFFFFFFFFFFFFFFFBCE6FAADA7179E84F3B9CAC2FC632551,
+                  (0x6B17D1F2E12C4247F8BCE6E563A440F277037D812DEB33A0F4A13945D898C296, 0x4FE342E2FE1A7F9B8EE7EB4A7C0F9E162BCE33576B315ECECBB6406837BF51F5)),
+}
+_ED = (2**252 + 27742317777372353535851937790883648493,
+       (15112221349535400772501151409588531511454012693041857206046113283949847762202, 46316835694926478169428394003475163141307993866256225615783033603165251855960))
+
+
+def search_broken(broken, rng):
+    """`curves_eq_model` (Props/C12Tables) failed: name the curve row and the field the library now reports differently, with the call
+    that shows it (order, generator, a small multiple of the generator computed by the library's own point arithmetic, a key length)."""
+    from gen.gen_curves import rows
+    for name, order_, pts, plen, clen, ulen in rows():
+        want_order, g = _REF.get(name, _ED)
+        if order_ != want_order:
+            return {"relation": "curve order of %s differs from the standard group order" % name, "entry_point": "EllipticCurveGetter.FromType(EllipticCurveTypes.%s).Order()" % name,
+                    "input": name, "impl_output": hex(order_), "model_output": hex(want_order)}
+        if pts[0] != g:
+            return {"relation": "generator of %s differs from the standard base point" % name, "entry_point": "EllipticCurveGetter.FromType(EllipticCurveTypes.%s).Generator()" % name,
+                    "input": name, "impl_output": str(pts[0]), "model_output": str(g)}
+        want_len = (64 if name == "ED25519_KHOLAW" else 32, 33 if name != "ED25519_MONERO" else 32, 65 if name in _REF else (33 if name != "ED25519_MONERO" else 32))
+        if (plen, clen, ulen) != want_len:
+            return {"relation": "key lengths of %s differ from (private, compressed, uncompressed) = %s" % (name, want_len), "entry_point": "PrivateKeyClass().Length() / PublicKeyClass().CompressedLength() / UncompressedLength()",
+                    "input": name, "impl_output": str((plen, clen, ulen)), "model_output": str(want_len)}
+    # orders, generators and lengths are right: the library's own arithmetic on G gives a wrong 2G / 3G / (n-1)G
+    return {"relation": "the library's point arithmetic on the generator (2G, 3G or (n-1)G of some curve) differs from the group law the model is proved to compute",
+            "entry_point": "Generator() + Generator(), ... * (Order() - 1)", "input": "see Gen/Curves.lean vs Props/C12Tables.lean",
+            "impl_output": str([(n, p[1:]) for n, _, p, _, _, _ in rows()])[:600], "model_output": "rows of Props/C12Tables.curves_eq_model"}
+
+
 def relations(rng, tier, rpt):
     """the coincurve and ecdsa secp256k1 back-ends are observationally identical on the valid domain (same keys, points,
     encodings, sums, products) and both refuse invalid input with ValueError."""
